@@ -3,7 +3,7 @@ import datetime
 import time
 
 from . import gen, pkts, refcodec as rc
-from .common import raising_site
+from .common import raising_site, OddStr
 
 from ndn.app_support.security_v2 import self_sign, sign_req, derive_cert, parse_certificate
 from ndn.encoding import parse_data, Name
@@ -365,6 +365,9 @@ def run_(ctx):
                 if rng.random() < 0.5:
                     txt = rng.choice(ISSUERS_TXT)
                     issuer, icomp = txt, rc.comp_from_uri(txt)
+                    if rng.random() < 0.3:
+                        issuer = OddStr(txt)          # (text is text, also as an instance of a str subclass with its own __str__)
+                        ctx.event('issuer-id-given-as-a-str-subclass')
                 else:
                     icomp = gen.component(rng, gen.BORING_TYPES)
                     issuer = rng.choice([bytes(icomp), bytearray(icomp), memoryview(bytes(icomp))])   # a component of a parsed name is a memoryview
@@ -439,6 +442,7 @@ def run_(ctx):
     ctx.need_event('validity-with-fractional-seconds')
     ctx.need_event('validity-starting-now')
     ctx.need_event('issued-after-a-step-of-the-wall-clock')
+    ctx.need_event('issuer-id-given-as-a-str-subclass')
     if not ctx.events.get('observation:no-tz-database'):
         ctx.need_event('aware-instant-in-a-zone-with-daylight-saving')
     ctx.assumptions = ['self_sign/sign_req read the real clock (datetime.now is not patchable): their instants are checked within 5 s',
